@@ -148,12 +148,11 @@ func (e *Engine) rangeNext(st *State, it PtrV, x *ssa.Next) Val {
 			m.v = StructV{[]Val{IntV{tb.BV(uint64(pos+size), 64)}, sv.F[1], sv.F[2]}}
 			return TupleV{BoolV{tb.tt}, IntV{tb.BV(uint64(pos), 64)}, IntV{tb.BV(uint64(r), 32)}}
 		}
-		// symbolic strings: bytes are assumed to be ASCII (checked)
-		b := s.B[pos]
-		e.oblige(st, tb.Cmp("bvult", b, tb.BV(0x80, 8)), "engine-assumption:ascii-string-range", x.Pos(), "")
+		// symbolic strings: UTF-8 decoding decided by the solver on the lead/continuation byte classes
+		r, size := e.decodeRune(st, s.B[pos:])
 		m := st.mut(it.Obj)
-		m.v = StructV{[]Val{IntV{tb.BV(uint64(pos+1), 64)}, sv.F[1], sv.F[2]}}
-		return TupleV{BoolV{tb.tt}, IntV{tb.BV(uint64(pos), 64)}, IntV{tb.ZExt(b, 32)}}
+		m.v = StructV{[]Val{IntV{tb.BV(uint64(pos+size), 64)}, sv.F[1], sv.F[2]}}
+		return TupleV{BoolV{tb.tt}, IntV{tb.BV(uint64(pos), 64)}, IntV{r}}
 	}
 	keys := sv.F[1].(ArrV).E
 	mv := sv.F[2].(MapV)
@@ -383,4 +382,63 @@ func (e *Engine) strIndex(st *State, m StrV, idx *Term, pos token.Pos) Val {
 		r = tb.Ite(tb.Cmp("=", idx, tb.BV(uint64(i), 64)), bs[i], r)
 	}
 	return IntV{r}
+}
+
+// decodeRune mirrors utf8.DecodeRune on symbolic bytes (forking on the byte classes).
+func (e *Engine) decodeRune(st *State, b []*Term) (*Term, int) {
+	tb := e.tb
+	in := func(x *Term, lo, hi uint64) *Term {
+		return tb.And(tb.Cmp("bvule", tb.BV(lo, 8), x), tb.Cmp("bvule", x, tb.BV(hi, 8)))
+	}
+	bad := tb.BV(0xFFFD, 32)
+	b0 := b[0]
+	if e.decide(st, tb.Cmp("bvult", b0, tb.BV(0x80, 8))) {
+		return tb.ZExt(b0, 32), 1
+	}
+	z := func(x *Term, m uint64) *Term { return tb.ZExt(tb.Bin("bvand", x, tb.BV(m, 8)), 32) }
+	sh := func(x *Term, n uint64) *Term { return tb.Bin("bvshl", x, tb.BV(n, 32)) }
+	or := func(xs ...*Term) *Term {
+		r := xs[0]
+		for _, x := range xs[1:] {
+			r = tb.Bin("bvor", r, x)
+		}
+		return r
+	}
+	if e.decide(st, in(b0, 0xC2, 0xDF)) {
+		if len(b) < 2 || !e.decide(st, in(b[1], 0x80, 0xBF)) {
+			return bad, 1
+		}
+		return or(sh(z(b0, 0x1F), 6), z(b[1], 0x3F)), 2
+	}
+	if e.decide(st, in(b0, 0xE0, 0xEF)) {
+		if len(b) < 3 {
+			return bad, 1
+		}
+		lo, hi := uint64(0x80), uint64(0xBF)
+		if e.decide(st, tb.Cmp("=", b0, tb.BV(0xE0, 8))) {
+			lo = 0xA0
+		} else if e.decide(st, tb.Cmp("=", b0, tb.BV(0xED, 8))) {
+			hi = 0x9F
+		}
+		if !e.decide(st, in(b[1], lo, hi)) || !e.decide(st, in(b[2], 0x80, 0xBF)) {
+			return bad, 1
+		}
+		return or(sh(z(b0, 0x0F), 12), sh(z(b[1], 0x3F), 6), z(b[2], 0x3F)), 3
+	}
+	if e.decide(st, in(b0, 0xF0, 0xF4)) {
+		if len(b) < 4 {
+			return bad, 1
+		}
+		lo, hi := uint64(0x80), uint64(0xBF)
+		if e.decide(st, tb.Cmp("=", b0, tb.BV(0xF0, 8))) {
+			lo = 0x90
+		} else if e.decide(st, tb.Cmp("=", b0, tb.BV(0xF4, 8))) {
+			hi = 0x8F
+		}
+		if !e.decide(st, in(b[1], lo, hi)) || !e.decide(st, in(b[2], 0x80, 0xBF)) || !e.decide(st, in(b[3], 0x80, 0xBF)) {
+			return bad, 1
+		}
+		return or(sh(z(b0, 0x07), 18), sh(z(b[1], 0x3F), 12), sh(z(b[2], 0x3F), 6), z(b[3], 0x3F)), 4
+	}
+	return bad, 1
 }
